@@ -20,6 +20,7 @@ package client
 
 import (
 	"crypto/tls"
+	"errors"
 	"fmt"
 	"github.com/stretchr/testify/assert"
 	"github.com/stretchr/testify/require"
@@ -118,6 +119,24 @@ func TestStrictHTTPClient(t *testing.T) {
 			assert.Equal(t, maxRedirects, rt.invocations)
 		})
 	})
+}
+
+func TestStrictHTTPClient_WithRedirectCheck(t *testing.T) {
+	rt := &stubRoundTripper{statusCode: http.StatusFound, headers: map[string]string{"Location": "https://example.com/other"}}
+	DefaultCachingTransport = rt
+	StrictMode = true
+	var checked []string
+
+	client := NewWithCache(time.Second).WithRedirectCheck(func(req *http.Request, via []*http.Request) error {
+		checked = append(checked, req.URL.String())
+		return errors.New("custom check failed")
+	})
+	httpRequest, _ := http.NewRequest("GET", "https://example.com", nil)
+	_, err := client.Do(httpRequest)
+
+	assert.ErrorContains(t, err, "custom check failed")
+	assert.Equal(t, []string{"https://example.com/other"}, checked)
+	assert.Equal(t, 1, rt.invocations)
 }
 
 func TestLimitedReadAll(t *testing.T) {
